@@ -1,10 +1,24 @@
 import JsightVerif.Proofs.Simple
 import JsightVerif.Model.ScanGen
+import JsightVerif.Props.Common
+import JsightVerif.Props.C12K.K0
+import JsightVerif.Props.C12K.K1
+import JsightVerif.Props.C12K.K2
+import JsightVerif.Props.C12K.K3
+import JsightVerif.Props.C12K.K4
+import JsightVerif.Props.C12K.K5
+import JsightVerif.Props.C12K.K6
+import JsightVerif.Props.C12K.K7
 /-
-  C12 — the scanner reports exactly the lexemes that are in the text (placeholder: theorems follow).
+  C12 — the scanner reports exactly the lexemes that are in the text.
+  Proved here for every file and every answer of the schema oracle: the scanner's two stacks are
+  used in a balanced way — it never pops an empty step stack, never ends a lexeme when none is
+  open, and never ends a lexeme of another kind than the innermost open one (so begin/end events
+  always pair up to well-nested lexemes).  The exactness of positions is decided by the
+  correspondence and the monitors of op `scan` (DESIGN S2).
 -/
 namespace JsightVerif.Props.C12
-open JsightVerif.Model JsightVerif.Gen
+open JsightVerif.Model JsightVerif.Gen JsightVerif.Props
 
 /-- the event tables of the model are the regenerated ones (lexeme-event.go) -/
 theorem events_pinned :
@@ -15,5 +29,77 @@ theorem events_pinned :
     ∧ (evOrder.all fun e => (evIsSingle.contains e) == e.isSingle) = true
     ∧ (evOrder.all fun e => evToLexType.lookup e == some e.toLexType) = true := by
   decide
+
+/-! ### stack discipline of the scanner, for every input -/
+
+/-- every step function is in one of the chunks -/
+theorem chunks_cover : (St.all.all fun st => (List.range nChunks).any fun i => (chunk i).contains st) = true := by
+  decide +kernel
+
+/-- the reach certificate is closed at every step function -/
+theorem table_closed (st : St) : closedAt Gen.prog reachInputs reachAt st = true := by
+  have hc := chunks_cover
+  simp only [List.all_eq_true, List.any_eq_true, List.contains_iff_mem] at hc
+  obtain ⟨i, hi, hmem⟩ := hc st (St.mem_all st)
+  have hall : chunkClosed i = true := by
+    simp only [List.mem_range, nChunks] at hi
+    have : i = 0 ∨ i = 1 ∨ i = 2 ∨ i = 3 ∨ i = 4 ∨ i = 5 ∨ i = 6 ∨ i = 7 := by omega
+    rcases this with rfl | rfl | rfl | rfl | rfl | rfl | rfl | rfl
+    · exact chunk0_closed
+    · exact chunk1_closed
+    · exact chunk2_closed
+    · exact chunk3_closed
+    · exact chunk4_closed
+    · exact chunk5_closed
+    · exact chunk6_closed
+    · exact chunk7_closed
+  simp only [chunkClosed, List.all_eq_true] at hall
+  exact hall st hmem
+
+/-- the input class of a byte: itself if the table ever tests it, else the one "other" byte -/
+def repOf (c : UInt8) : UInt8 := if reachInputs.contains c then c else reachOther
+
+/-- table obligation: in every step function each non-zero byte takes the same branches as its
+    representative (256 × 173 program walks, kernel-evaluated) -/
+theorem rep_check :
+    ((List.range 256).all fun n => n == 0 ||
+      (reachInputs.contains (repOf n.toUInt8) &&
+        St.all.all fun st => progAgn n.toUInt8 (repOf n.toUInt8) (Gen.prog st))) = true := by
+  decide +kernel
+
+theorem table_ok : TableOk Gen.prog reachInputs reachAt where
+  closed_ := table_closed
+  rep := by
+    intro c hc
+    have h := rep_check
+    simp only [List.all_eq_true, List.mem_range, Bool.or_eq_true, Bool.and_eq_true, beq_iff_eq,
+      List.contains_iff_mem] at h
+    have hlt : c.toNat < 256 := c.toNat_lt
+    have hcc : c.toNat.toUInt8 = c := by simp
+    rcases h c.toNat hlt with h0 | ⟨hin, hall⟩
+    · exact absurd (UInt8.toNat_inj.mp (by simpa using h0)) hc
+    · rw [hcc] at hin hall
+      exact ⟨repOf c, hin, fun st => hall st (St.mem_all st)⟩
+
+theorem root_in_reach : (reachAt .stateRoot).contains ([], []) = true := by decide
+
+/-- **C12 (stack discipline), every file, every oracle, every fuel**: however a scan of a file from
+    `stateRoot` ends, it does not end in a pop of an empty step stack, a pop of an empty event
+    stack, an empty found-queue shift, or an "Ending lexeme event does not match beginning event"
+    error: begin and end events are always well nested. -/
+theorem C12_stack_discipline (env : Env) (fuel n : Nat) (f : Fault)
+    (h : (scanFrom env Gen.prog fuel n (Sc.init .stateRoot) []).2.1 = .fault f) : ¬ StackFault f :=
+  scanFrom_sound env Gen.prog reachInputs reachAt table_ok fuel n (Sc.init .stateRoot) []
+    (good_init env reachAt .stateRoot root_in_reach) f h
+
+/-- the same for the function the driver runs (`scanFile`) -/
+theorem C12_scanFile_stack_discipline (data : Array UInt8) (lenAt : BodyKind → Nat → LenAnswer) (f : Fault)
+    (h : (scanFile data lenAt).2 = .fault f) : ¬ StackFault f :=
+  C12_stack_discipline (mkEnv data lenAt) _ _ f h
+
+/-- non-vacuity: the faults excluded are the ones the model can name, and other faults are not excluded -/
+example : StackFault (.panic "stepStack.Pop: Reading from empty stack") := Or.inl rfl
+example : StackFault (.err (.basic mismatchMsg) 3) := rfl
+example : ¬ StackFault (.err (.unexpectedChar "in x" "") 3) := id
 
 end JsightVerif.Props.C12
